@@ -440,7 +440,13 @@ def run_case(case, verbose=False, hooks=None):
                                     "announced": _announced(p)})
 
     w.on_death = on_death
-    w.pending_probe = lambda: sum(1 for f in ctx.futs.values() if f._state in ("PENDING", "RUNNING"))
+    def pending_probe():
+        n = sum(1 for f in ctx.futs.values() if f._state in ("PENDING", "RUNNING"))
+        # (map() keeps its own futures: count what the executors themselves still owe as well)
+        m = sum(len(r["obj"]._pending_work_items) for r in ctx.executors if r["obj"] is not None)
+        return max(n, m)
+
+    w.pending_probe = pending_probe
 
     def sample_registered(where_):
         for r in ctx.executors:
